@@ -156,8 +156,11 @@ class LFRicInvoke(Invoke):
         # all loops in this Invoke
         self.loop_bounds = LFRicLoopBounds(self)
 
-        # Extend argument list with stencil information
-        self._alg_unique_args.extend(self.stencil.unique_alg_vars)
+        # Extend argument list with stencil information. The algorithm
+        # layer must pass the extent and direction arguments as they were
+        # written (e.g. 'info(1)' or 'obj%extent'), not the names that
+        # they are given in the PSy layer ('info', 'obj_extent').
+        self._alg_unique_args.extend(self.stencil.unique_alg_texts)
 
         # Adding in qr arguments
         self._alg_unique_qr_args = []
